@@ -148,9 +148,9 @@ pub const BUDGET: Budget = Budget {
 pub fn run(cfg: &RunCfg) -> (Outcome, EvidenceExtra) {
     let out = run_property(cfg, "C11", crate::suites::suites20(), BUDGET, |s| strategy(cfg, s), check);
     let ev = EvidenceExtra {
-        rule: "per generated honest run: for every type that holds group elements or scalars (5 messages, password file, server setup, client registration/login state, plus PublicKey/PrivateKey/KeyPair), for every such field (in the serde forms also the stored public keys of ServerSetup), every invalid encoding of the class table (identity; off-curve x searched upward from a valid x; x = p, p+1, ff..; x+p where representable; ristretto s+p, p, negative s, bit 255, non-square searched, all-ff; Curve25519 small-order u in {0,1,p-1,a,b} incl. u+p and bit-255 forms; scalars 0, n, n+1, ff.., valid+n; plus generated values per class) is spliced in with all other fields valid and offered to the native, serde-bincode and serde-JSON decoders. Each invalid encoding is first confirmed invalid by an independent predicate built on the curve crates. Oracle: every decoder returns Err; valid originals are accepted by all three. evaluation = one (type, field, invalid value, codec) tuple, all distinct within a case; cases distinct by hash".into(),
+        rule: "per generated honest run: for every type that holds group elements or scalars (5 messages, password file, server setup, client registration/login state, plus PublicKey/PrivateKey/KeyPair), for every such field (in the serde forms also the stored public keys of ServerSetup), every invalid encoding of the class table (identity; off-curve x searched upward from a valid x; x = p, p+1, ff..; x+p where representable; ristretto s+p, p, negative s, bit 255, non-square searched, all-ff; Curve25519 small-order u in {0,1,p-1,a,b} incl. u+p and bit-255 forms; scalars 0, n, n+1, ff.., valid+n, Curve25519 private keys with bit 255 set; plus generated values per class) is spliced in with all other fields valid and offered to the native, serde-bincode and serde-JSON decoders. Each invalid encoding is first confirmed invalid by an independent predicate built on the curve crates. Oracle: every decoder returns Err; valid originals are accepted by all three. evaluation = one (type, field, invalid value, codec) tuple, all distinct within a case; cases distinct by hash".into(),
         assumptions: vec!["alternative SEC1 tags of valid points are encoding aliases and belong to C10, not to C11".into(),
-            "unclamped Curve25519 private keys are not classed as invalid scalars (RFC 7748 clamps any 32 bytes)".into()],
+            "for Curve25519 private keys only zero and values >= 2^255 (bit 255 set) are classed as out-of-range scalars; whether the low clamp bits must already be cleared is not judged (RFC 7748 clamps any 32 bytes)".into()],
         exhaustive: Some(false),
         extra: [("exhaustive_part".to_string(), json!("the fixed invalid-class table is applied to every group-element/scalar field of every type through all three codecs"))].into_iter().collect(),
     };
